@@ -242,7 +242,12 @@ impl Context<'_> {
 /// than failing, because a column may legitimately mix types and an aggregate
 /// over the numeric part is still an answer.
 fn aggregate(func: AggregationFunction, column: &[Json]) -> Result<Json, KipError> {
-    let numbers: Vec<f64> = column.iter().filter_map(Json::as_f64).collect();
+    let mut numbers: Vec<f64> = column.iter().filter_map(Json::as_f64).collect();
+    // Floating-point addition is not associative, and the solution set reaches
+    // here in whatever order the read path produced it (index order now,
+    // version-log order AS OF). Summing in value order makes SUM and AVG a
+    // function of the solution set alone.
+    numbers.sort_by(f64::total_cmp);
     let finish = |value: f64| {
         serde_json::Number::from_f64(value)
             .map(Json::Number)
